@@ -85,8 +85,7 @@ func cmdForms(prop string, n int, seed uint64, driver, out, corpusDir string) (*
 		}
 	}
 	res.Evaluations = len(cases) * 4
-	writeKernelSample(out, lines, answers, 30)
-	res.KernelCases = min(30, len(lines))
+	res.KernelCases = writeKernelSample(out, lines, answers, 30)
 	return res, nil
 }
 
@@ -416,7 +415,6 @@ func cmdPerturb(prop string, n int, seed uint64, driver, out string) (*Result, e
 		}
 	}
 	res.Evaluations = len(cases)
-	writeKernelSample(out, lines, answers, 30)
-	res.KernelCases = min(30, len(lines))
+	res.KernelCases = writeKernelSample(out, lines, answers, 30)
 	return res, nil
 }
